@@ -36,15 +36,30 @@ func panicGuards(w *World) map[*ssa.Function]int {
 		if !ok {
 			continue
 		}
-		p, ok := bo.X.(*ssa.Parameter)
+		// `size <= 0` / `size < 1`, written either way round (`0 >= size`, `1 > size`)
+		op, px, cy := bo.Op, bo.X, bo.Y
+		if _, isC := px.(*ssa.Const); isC {
+			px, cy = cy, px
+			switch op {
+			case token.GEQ:
+				op = token.LEQ
+			case token.GTR:
+				op = token.LSS
+			case token.LEQ:
+				op = token.GEQ
+			case token.LSS:
+				op = token.GTR
+			}
+		}
+		p, ok := px.(*ssa.Parameter)
 		if !ok {
 			continue
 		}
-		c, ok := constInt(bo.Y)
+		c, ok := constInt(cy)
 		if !ok {
 			continue
 		}
-		if !((bo.Op == token.LEQ && c == 0) || (bo.Op == token.LSS && c == 1)) {
+		if !((op == token.LEQ && c == 0) || (op == token.LSS && c == 1)) {
 			continue
 		}
 		if _, isPanic := lastInstr(b.Succs[0]).(*ssa.Panic); !isPanic {
